@@ -2,8 +2,9 @@ SPECIFICATION Spec
 CONSTANTS
   Gens = {1, 2}
   Ids = {1}
-  Streams = {1, 2}
+  Streams = @STREAMS@
   MaxN = @MAXN@
-INVARIANTS TypeOK SnapReached
-PROPERTIES RestoreExact
+  MaxTok = @MAXTOK@
+INVARIANTS TypeOK SnapSound ImgSound SameBytesSameStream
+PROPERTIES RestoreExact SaveIsReadOnly
 CHECK_DEADLOCK FALSE
